@@ -1,10 +1,139 @@
-/- Property C13: the property theorems (and nothing else). -/
+/- Property C13: the property theorems (and nothing else). Proofs are in Proofs/TagsOk.lean and
+   Proofs/TagsSpec.lean. -/
 import Frugal.Tags
+import Frugal.Proofs.TagsSpec
 import Frugal.Props.Instances
 namespace Frugal.C13
 open Frugal
+
 /-- nested pointers are refused at every position -/
 theorem ptr_to_ptr_rejected (e : GoTy) (hasDef : Bool) (d : List Char) (allow : Bool) :
-    doParseType (.ptr (.ptr e)) hasDef d allow = none := by
-  cases allow <;> simp [doParseType]
+    doParseType (.ptr (.ptr e)) hasDef d allow = none := ptr_ptr_none e hasDef d allow
+
+/-- pointers to containers are refused -/
+theorem ptr_to_container_rejected (e : GoTy) (hasDef : Bool) (d : List Char) (allow : Bool)
+    (he : (∃ x, e = .slice x ∧ x ≠ .prim .uint8 "uint8") ∨ (∃ k v, e = .map k v)) :
+    doParseType (.ptr e) hasDef d allow = none := ptr_to_container_none e hasDef d allow he
+
+/-- a pointer is accepted only where allowed, and only to a scalar/string/binary or a struct -/
+theorem ptr_only_to_value_or_struct (e : GoTy) (hasDef : Bool) (d : List Char) (allow : Bool)
+    (t : Ty) (r : List Char) (h : doParseType (.ptr e) hasDef d allow = some (t, r)) :
+    allow = true ∧ ∃ t', t = .ptr t' ∧ doParseType e hasDef d false = some (t', r) ∧
+      ((∃ k, t' = .base k) ∨ (∃ s, t' = .strct s)) := ptr_result e hasDef d allow t r h
+
+/-- Go kinds Thrift cannot express are refused (and these are all of them) -/
+theorem unsupported_kind_rejected (k : GoKind) (nm : String) (hasDef : Bool) (d : List Char)
+    (allow : Bool) (hk : k ∈ [GoKind.uint, .uint8, .uint16, .uint32, .uint64, .uintptr, .float32,
+      .complex64, .complex128, .chan, .func, .iface, .unsafeptr]) :
+    doParseType (.prim k nm) hasDef d allow = none :=
+  unsupported_kind_none k nm hasDef d allow ((unsupported_kinds k).2 hk)
+
+theorem array_rejected (n : Nat) (e : GoTy) (hasDef : Bool) (d : List Char) (allow : Bool) :
+    doParseType (.arr n e) hasDef d allow = none := array_none n e hasDef d allow
+
+/-- a slice without a list/set annotation -/
+theorem slice_without_annotation_rejected (e : GoTy) (d : List Char) (allow : Bool)
+    (he : e ≠ .prim .uint8 "uint8") : doParseType (.slice e) false d allow = none :=
+  slice_without_annotation_none e d allow he
+
+/-- map keys are scalars, strings or struct pointers; map values and list elements are values
+    or struct pointers — anything else is refused -/
+theorem map_key_value_types (k v : GoTy) (hasDef : Bool) (d : List Char) (allow : Bool) (t : Ty)
+    (r : List Char) (h : doParseType (.map k v) hasDef d allow = some (t, r)) :
+    ∃ kt vt, t = .map kt vt ∧
+      ((∃ b, kt = .base b ∧ b ≠ .binary) ∨ (∃ s, kt = .ptr (.strct s))) ∧
+      (vt.isPtr = false ∨ ∃ s, vt = .ptr (.strct s)) := by
+  obtain ⟨kt, vt, rfl, hk, hv⟩ := map_result k v hasDef d allow t r h
+  exact ⟨kt, vt, rfl, (key_types kt).1 hk, (value_types vt).1 hv⟩
+
+/-- non-numeric, empty or out-of-range ids -/
+theorem bad_id_rejected (hasInit : Bool) (gf : GoField) (idS : List Char) (r : List (List Char))
+    (h : idS = [] ∨ idS.all Char.isDigit = false ∨
+      65536 ≤ idS.foldl (fun a c => a * 10 + (c.toNat - 48)) 0) :
+    resolveField hasInit gf (idS :: r) = none := by
+  apply resolveField_bad_id
+  rcases h with rfl | h | h
+  · exact parseU16_empty
+  · exact parseU16_nondigit h
+  · exact parseU16_range h
+
+/-- unknown requiredness word -/
+theorem bad_requiredness_rejected (hasInit : Bool) (gf : GoField) (idS reqS : List Char)
+    (r : List (List Char))
+    (h : reqS ≠ "default".toList ∧ reqS ≠ "required".toList ∧ reqS ≠ "optional".toList) :
+    resolveField hasInit gf (idS :: reqS :: r) = none := by
+  apply resolveField_bad_req
+  cases hp : parseReq reqS with
+  | none => rfl
+  | some q =>
+    have := (parseReq_words reqS).1 (by rw [hp]; simp)
+    rcases this with h' | h' | h'
+    · exact absurd h' h.1
+    · exact absurd h' h.2.1
+    · exact absurd h' h.2.2
+
+/-- an annotation the Go type does not admit (contradicting or syntactically broken) -/
+theorem bad_annotation_rejected (hasInit : Bool) (gf : GoField) (idS reqS tyS : List Char)
+    (r : List (List Char)) (h : parseType gf.ty tyS = none) :
+    resolveField hasInit gf (idS :: reqS :: tyS :: r) = none :=
+  resolveField_bad_type hasInit gf idS reqS tyS r h
+
+/-- unknown options; `nocopy` on a non-string; `nocopy` twice -/
+theorem bad_option_rejected (hasInit : Bool) (gf : GoField) (idS reqS tyS o : List Char)
+    (r : List (List Char)) (h : o ≠ "nocopy".toList) :
+    resolveField hasInit gf (idS :: reqS :: tyS :: o :: r) = none :=
+  resolveField_bad_opts hasInit gf idS reqS tyS (o :: r) (fun ty => parseOpts_unknown ty o r false h)
+
+theorem nocopy_twice_rejected (hasInit : Bool) (gf : GoField) (idS reqS tyS : List Char)
+    (r : List (List Char)) :
+    resolveField hasInit gf (idS :: reqS :: tyS :: "nocopy".toList :: "nocopy".toList :: r) = none :=
+  resolveField_bad_opts hasInit gf idS reqS tyS _ (fun ty => parseOpts_nocopy_twice ty r)
+
+theorem nocopy_only_on_strings (hasInit : Bool) (gf : GoField) (ft : List (List Char)) (f : Field)
+    (h : resolveField hasInit gf ft = some f) (hn : f.nocopy = true) : f.ty.tt = .string := by
+  have := resolveField_ok hasInit gf ft f h
+  simp only [Field.ok, Bool.and_eq_true, Bool.or_eq_true, Bool.not_eq_true', beq_iff_eq] at this
+  rcases this.1.2 with h1 | h1
+  · rw [hn] at h1; cases h1
+  · exact h1
+
+/-- only optional fields or structs can be pointers -/
+theorem non_optional_scalar_ptr_rejected (hasInit : Bool) (gf : GoField) (ft : List (List Char))
+    (f : Field) (h : resolveField hasInit gf ft = some f) (hp : f.ty.isPtr = true) :
+    f.req = .optional ∨ f.ty.isStructPtr = true := resolveField_ptr_rule hasInit gf ft f h hp
+
+/-- a tagged field that does not resolve rejects its struct -/
+theorem one_bad_field_rejects_struct (gs : GoStruct) (pre post : List GoField) (gf : GoField)
+    (ft : List (List Char)) (hfields : gs.fields = pre ++ gf :: post)
+    (hpre : ∀ g ∈ pre, g.anonymous = true ∨ g.exported = false ∨ lookupStructTag g.tag = none)
+    (h0 : gf.anonymous = false) (h1 : gf.exported = true)
+    (ht : lookupStructTag gf.tag = some ft) (hf : resolveField gs.hasInit gf ft = none) :
+    resolveStruct gs = none := by
+  unfold resolveStruct
+  rw [hfields]
+  clear hfields
+  have : resolveFieldsAux gs.hasInit (pre ++ gf :: post) [] = none := by
+    induction pre with
+    | nil => exact bad_field_rejects _ gf post [] ft h0 h1 ht hf
+    | cons g pre ih =>
+      rw [List.cons_append, ignored_fields _ g _ [] (hpre g (by simp))]
+      exact ih (fun x hx => hpre x (List.mem_cons_of_mem _ hx))
+  rw [this]
+
+/-- duplicate ids reject the struct: an accepted struct has pairwise distinct ids -/
+theorem duplicate_ids_rejected (gs : GoStruct) (sd : SDesc) (h : resolveStruct gs = some sd) :
+    sd.fields.Pairwise (fun a b => a.id < b.id) := (resolveStruct_fields gs sd h).1
+
+/-- a type whose own definition is rejected is not accepted -/
+theorem accepted_needs_own_definition (U : Universe) (sid : Nat) (h : accepted U sid = true) :
+    ∃ sd, (resolveAll U).getD sid none = some sd := accepted_resolves U sid h
+
+/-- arguments that are not a (pointer to a) struct: EncodedSize panics with an ordinary Go panic,
+    EncodeObject and DecodeObject return errors -/
+theorem bad_argument_outcome (kind : String)
+    (h : kind ∈ ["nil", "int", "ptrint", "ptrptr", "slice", "map", "string", "func", "chan"]) :
+    argOutcome kind = "panic:ordinary err err" := by
+  simp only [List.mem_cons, List.not_mem_nil, or_false] at h
+  rcases h with rfl | rfl | rfl | rfl | rfl | rfl | rfl | rfl | rfl <;> decide
+
 end Frugal.C13
